@@ -73,6 +73,13 @@ TMapReal == LET r == Events[l] IN
   /\ Flag(r.nonfinite = 0 /\ r.ulps <= BudgetMap, [cls |-> IF r.model = "elastic" THEN "elastic_map_real" ELSE "fluid_map_real",
                                                     key |-> r.model \o ":" \o r.fn \o ":" \o r.ov \o ":" \o r.via, num |-> r.num, detail |-> <<r.ulps>>])
   /\ seen' = [seen EXCEPT !.maps = @ \cup {<<r.model, r.fn, r.num, r.ov, r.via>>}]
+(* beyond the listed properties: GetType reports the class's own enumerator through the abstract interface; every printed / serialised form *)
+(* names the type and embeds the parameters' own forms in declared order; streaming equals Print()                                          *)
+TModelText == LET r == Events[l] IN
+  /\ IsEvent("ModelText") /\ r.model \in {"elastic", "compressible", "incompressible"} /\ r.form \in {"Print", "JSON", "XML", "YAML"}
+  /\ Flag(r.type_ok = 1 /\ r.has_type_label = 1 /\ r.has_p1 = 1 /\ r.has_p2_after_p1 = 1 /\ r.stream_is_print = 1,
+          [cls |-> "extra_model_text", key |-> r.model \o ":" \o r.form, num |-> r.num, detail |-> <<r.text>>])
+  /\ UNCHANGED seen
 (* C14 for the three model classes: lexicographic on their two stored values *)
 TModelCmp == LET r == Events[l]  c == Compare(r.a, r.b) IN
   /\ IsEvent("ModelCmp") /\ Len(r.a) = Len(r.b)
@@ -86,7 +93,7 @@ TFinish == /\ l = Len(Events) + 1 /\ l' = l + 1
                                          ctor_pairs_missing |-> Cardinality((E!SupportedPairs \X {"f", "d", "l"}) \ {<<<<x[1], x[2]>>, x[3]>> : x \in seen.ctors})])
            /\ UNCHANGED <<bad, seen>>
 Next == TElasticCtor \/ TElasticStress \/ TElasticStrain \/ TStub \/ TFluidStress \/ TFluidRate \/ TFluidLinear \/ TFluidOneArg
-        \/ TElasticRebuild \/ TCompose \/ TMapReal \/ TModelCmp \/ TFinish
+        \/ TElasticRebuild \/ TCompose \/ TMapReal \/ TModelText \/ TModelCmp \/ TFinish
 Spec == Init /\ [][Next]_vars
 Accepted == TLCGet("stats").diameter - 2 = Len(Events)
 =============================================================================
